@@ -183,16 +183,22 @@ def history_noise(circuit, rng) -> None:
         pass
 
 
-def history_twin(case_builder, passes, rng, prob: float = 0.3) -> None:
+def history_twin(case_builder, passes, rng, prob: float = 0.3) -> bool:
     """With probability `prob`, build a twin of the circuit under test (same specification, separate objects), run
     the same passes on it and then relabel its qubits (history_noise). The twin is discarded; only state that the
-    library shares between circuits can make this visible to later cases."""
+    library shares between circuits can make this visible to later cases. Returns whether the twin was run (a replay
+    of the case runs it again: run_twin)."""
     if rng.random() >= prob:
-        return
+        return False
+    run_twin(case_builder, passes)
+    return True
+
+
+def run_twin(case_builder, passes) -> None:
     try:
         twin = case_builder()
         for p in passes:
             apply_pass(twin, list(p))
-        history_noise(twin, rng)
+        history_noise(twin, None)
     except Exception:  # noqa: BLE001
         pass
